@@ -123,7 +123,9 @@ class Gen:
             return ["set %d 0" % P_LOSSLESS, "set %d %d" % (P_SUBSAMP, ss), "set %d %d" % (P_CS, 2 if ss == SGRAY else r.range(0, 1)),
                     "cy %d %d %d %s" % (w, h, r.range(0, 50), self.buf(probe))]
         if k < 8:
-            return "ey %d %d %d %d" % (w, h, r.range(0, 50), self.pf())
+            ss = r.range(0, 6)
+            return ["set %d 0" % P_LOSSLESS, "set %d %d" % (P_SUBSAMP, ss), "set %d %d" % (P_CS, 2 if ss == SGRAY else r.range(0, 1)),
+                    "ey %d %d %d %d" % (w, h, r.range(0, 50), self.pf())]
         return "lc %d %d %d %d %d %d %d" % (w, h, r.range(0, 50), self.pf(), r.range(0, 6), r.range(1, 100),
                                           r.choice(LEGACY_FLAGS) | r.choice(LEGACY_FLAGS))
 
@@ -283,6 +285,17 @@ def finding_signature(hist, res):
     probe = ops[-1].split()
     if "jdapistd.c" in crash and "read_and_discard_scanlines" in crash and "use-after-free" in crash:
         return "F5:stale-cconvert:skip-scanlines-merged-upsampling"
+    # the same defect without a sanitizer: the stale pointer is read and written silently, the pixels may differ
+    if not crash and probe and ops[0].startswith("L") and probe[0] == "d" and len(probe) >= 4 and probe[2] == "0" and probe[3] != "0":
+        return "F5:stale-cconvert:skip-scanlines-merged-upsampling"
+    if not crash and probe and probe[0] == "d" and res.get("ops"):
+        try:
+            d = res["ops"][-1]["S"].split()[1].split(",")
+            p = res["ops"][-1]["S"].split()[2][2:].split(",")
+            if d[10] == "1" and (p[29] != "0" or p[31] != "0"):
+                return "F5:stale-cconvert:skip-scanlines-merged-upsampling"
+        except (KeyError, IndexError):
+            pass
     if probe and probe[0] == "gi":
         return "F9:stale-icc-profile:tj3GetICCProfile"
     if probe and probe[0] == "tb":
@@ -310,6 +323,14 @@ def run(ctx):
     ctx.regen(["ErrPaths"])
     ctx.prove()
     drv = ctx.model_driver()
+    # other builders share coq/: make sure the extraction is not older than the model it was made from
+    try:
+        ext = os.path.join(core.COQ, "x_c12.ml")
+        if drv and os.path.getmtime(ext) < os.path.getmtime(os.path.join(core.COQ, "model", "ApiOps.vo")):
+            os.remove(os.path.join(core.COQ, "extract", "ExtractC12.vo"))
+            drv = ctx.model_driver()
+    except OSError:
+        pass
     flavours = ["asan", "simd"] if not ctx.thorough() else ["asan", "simd", "plain"]
     exes = {fl: ctx.cc("c12", ["c12.c"], fl, libs=("turbojpeg",), extra="-DBMP_SUPPORTED -DPPM_SUPPORTED") for fl in flavours}
 
@@ -394,9 +415,396 @@ def run_hists(ctx, hists, exes, drv, flavours):
                    "correspondence (model vs implementation abstract state after every call) is differential testing; it supports the tie, not the theorems"]
 
 
-def model_lines(ctx, drv, hists, ref_lines):
+# ----------------------------------------------------------------------------- model bridge
+S_ARGS, S_HDR, S_POSTHDR, S_START0, S_STARTCC, S_START, S_CROP, S_SCAN, S_FINISH = 1, 2, 3, 4, 5, 6, 7, 8, 9
+S_CDEF, S_CSTART, S_CSCAN, S_CFINISH, S_RDCOEF, S_WRCOEF, S_XTHROW, S_MEMDEST, S_NOIMAGE, S_RDCOEF2, S_CSTART2 = 10, 11, 12, 13, 14, 15, 16, 17, 18, 19, 20
+ICC_IDS = (11, 26)
+PARAM_NAMES = ["stopOnWarning", "bottomUp", "noRealloc", "quality", "subsamp", "jpegWidth", "jpegHeight", "precision", "colorspace",
+               "fastUpsample", "fastDCT", "optimize", "progressive", "scanLimit", "arithmetic", "lossless", "losslessPSV", "losslessPt",
+               "restartIntervalBlocks", "restartIntervalRows", "xDensity", "yDensity", "densityUnits", "maxMemory", "maxPixels", "saveMarkers",
+               "sfn", "sfd", "cx", "cy", "cw", "ch", "iccSize"]
+
+
+def parse_state(S):
+    """'c:.. d:.. p:..' -> dict(c=[..]|None, d=[..]|None, p=[..])"""
+    out = {"c": None, "d": None, "p": []}
+    for part in S.split():
+        k, v = part[0], part[2:]
+        if v == "-":
+            continue
+        out[k] = [int(x) for x in v.split(",") if x != ""]
+    return out
+
+
+def jref_info(ref):
+    """-> (id or None, corruption kind)"""
+    if ref == "F1":
+        return None, "F1"
+    m = re.match(r"(\d+)(?:\.([a-zA-Z]))?", ref)
+    return int(m.group(1)), (m.group(2) or "")
+
+
+class Unsupported(Exception):
+    pass
+
+
+def stage_parts(st):
+    m = re.match(r"E([cd])(\d+)\.(\w+)\.(\d)(\d)\.(\d+)$", st)
+    if m:
+        return {"side": m.group(1), "gs": int(m.group(2)), "code": m.group(3), "soi": int(m.group(4)), "sof": int(m.group(5)), "um": int(m.group(6))}
     return None
 
 
-def check_model(ctx, h, stream, res, mline):
-    pass
+def to_model_call(idx, toks, res, pre, post, flags):
+    """one harness op -> (kind string, args dict); sets flags['imprecise'] when the failure stage cannot be placed exactly"""
+    op = toks[0]
+    rc = int(res["rc"])
+    st = res["st"]
+    warn = int(res.get("w", "0"))
+    pp = dict(zip(PARAM_NAMES, post["p"]))
+    pq = dict(zip(PARAM_NAMES, pre["p"]))
+    a = {"callid": idx + 1, "warn": warn, "fail": 0}
+    E = stage_parts(st)
+    T = int(st[1:]) if re.match(r"T\d+$", st) else None
+    if st == "SKIP" or st == "?" or st == "T?":
+        raise Unsupported(op + ":" + st)
+    if st == "W" and rc != 0 and pq["stopOnWarning"]:
+        raise Unsupported("stop-on-warning abort")
+
+    def dec_facts(ref):
+        i, kind = jref_info(ref)
+        d = post["d"]
+        a.update({"img": (i if i is not None else 999) + 1000 * idx, "lossless": d[4], "arith": d[5], "prog": d[6], "um_end": d[3],
+                  "jw": pp["jpegWidth"], "jh": pp["jpegHeight"], "jprec": pp["precision"], "subsamp": pp["subsamp"],
+                  "colorspace": pp["colorspace"], "ncomp": 3, "o_xDensity": pp["xDensity"], "o_yDensity": pp["yDensity"],
+                  "o_densityUnits": pp["densityUnits"], "o_losslessPSV": pp["losslessPSV"], "o_losslessPt": pp["losslessPt"],
+                  "tables_only": 1 if (i == 22 and kind == "") else 0})
+        selfc = 0 if (i == 23 or kind in ("r", "k", "x")) else 1
+        return i, kind, selfc
+
+    def dec_fail(kindname):
+        """decompressor-side failure stage"""
+        if rc == 0 or st == "W":
+            return
+        if E and E["side"] == "d":
+            if E["gs"] in (200, 201):
+                if E["code"] == "NOIMG":
+                    # EOI before any SOS where an image is required: the model raises by itself
+                    a.update({"tables_only": 1, "f_soi": E["soi"], "f_sof": E["sof"]})
+                    return
+                a.update({"fail": S_HDR, "f_soi": E["soi"], "f_sof": E["sof"], "f_um": E["um"], "tables_only": 0})
+            elif E["gs"] == 202:
+                if kindname == "t":
+                    a["fail"] = S_RDCOEF
+                    flags["imprecise"] = True
+                elif E["code"] == "CONV":
+                    a["fail"] = S_STARTCC
+                elif E["code"] in ("NOHUFF", "NOQUANT"):
+                    a["fail"] = S_START
+                else:
+                    a["fail"] = S_START
+                    flags["imprecise"] = True
+            elif E["gs"] in (203, 204):
+                a["fail"] = S_START
+                flags["imprecise"] = True
+            elif E["gs"] in (205, 206):
+                a["fail"] = S_SCAN
+            elif E["gs"] == 209:
+                a["fail"] = S_RDCOEF2
+            elif E["gs"] == 210:
+                a["fail"] = S_FINISH
+                flags["imprecise"] = True
+            else:
+                raise Unsupported("stage " + st)
+        elif T is not None:
+            if T in (0, 1):
+                a["fail"] = S_ARGS
+            elif T == 27:
+                a["fail"] = S_START
+                flags["imprecise"] = True
+            elif T in (3, 6, 7, 11):
+                a["fail"] = S_POSTHDR
+            elif T in (4, 28, 24, 25):
+                a["fail"] = S_CROP
+                flags["imprecise"] = True
+            else:
+                raise Unsupported("stage " + st)
+        else:
+            raise Unsupported("stage " + st)
+
+    if op == "set":
+        return "set", {"param": int(toks[1]), "value": int(toks[2])}
+    if op == "sf":
+        return "sf", {"num": int(toks[1]), "denom": int(toks[2]), "fail": 0 if rc == 0 else S_ARGS}
+    if op == "crop":
+        return "crop", {"x": pp["cx"], "y": pp["cy"], "w": pp["cw"], "h": pp["ch"], "fail": 0 if rc == 0 else S_ARGS}
+    if op == "icc":
+        return "icc", {"icc_id": int(toks[1]) * 100}
+    if op == "gi":
+        return "gi", {"fetch": 1, "fail": S_ARGS if (T in (0, 1)) else 0}
+    if op == "tb":
+        return "tb", {"copynone": 1 if int(toks[2]) & 64 else 0, "fail": S_ARGS if (rc != 0) else 0}
+    if op == "bad":
+        a["fail"] = S_ARGS
+        a["bufmode"] = 2
+        k = int(toks[1]) % 8
+        return {0: "c.8", 4: "c.8", 1: "d.8.100", 5: "d.8.100", 2: "h.1", 3: "t.1", 6: "dy.1", 7: "ey"}[k], a
+    if op == "h":
+        i, kind, selfc = dec_facts(toks[1])
+        dec_fail("h")
+        if rc == 0 and post["d"][2] == 0 and post["d"][0] == 200:
+            # EOI before any SOS: jpeg_read_header aborts and reports a tables-only stream
+            a.update({"tables_only": 1, "f_soi": 1, "f_sof": post["d"][2]})
+        has = 1 if (i in ICC_IDS and rc == 0 and (post["d"][9] == 1)) else 0
+        a.update({"has_icc": has, "icc_id": 1})
+        return "h.%d" % selfc, a
+    if op in ("d", "dy"):
+        ref = toks[2] if op == "d" else toks[1]
+        i, kind, selfc = dec_facts(ref)
+        dec_fail(op)
+        if op == "dy":
+            a["merged_obs"] = post["d"][10]
+            return "dy.%d" % selfc, a
+        bits = int(toks[1])
+        bits = 8 if bits <= 8 else 12 if bits <= 12 else 16
+        crop = 1 if (pq["cx"] or pq["cy"] or pq["cw"] or pq["ch"]) else 0
+        merged = post["d"][10] if (rc == 0 or st == "W" or a["fail"] in (S_START, S_SCAN, S_FINISH, S_CROP)) else 0
+        a["pf"] = int(toks[3])
+        if crop and pq["ch"]:
+            sh = (pp["jpegHeight"] * pq["sfn"] + pq["sfd"] - 1) // max(pq["sfd"], 1)
+            a["skip_tail"] = 1 if pq["cy"] + pq["ch"] != sh else 0
+        return "d.%d.%d%d%d" % (bits, selfc, crop, merged), a
+    if op == "uy":
+        a["img"] = 5000 + idx
+        a["pf"] = int(toks[4])
+        if rc != 0 and st != "W":
+            if T in (0, 1):
+                a["fail"] = S_ARGS
+            elif T in (2, 10):
+                a["fail"] = S_XTHROW
+            elif E and E["side"] == "d" and E["gs"] == 202:
+                a["fail"] = S_STARTCC if E["code"] == "CONV" else S_START
+                if E["code"] not in ("CONV", "NOHUFF", "NOQUANT"):
+                    flags["imprecise"] = True
+            else:
+                raise Unsupported("stage " + st)
+        merged = post["d"][10] if (rc == 0 or a["fail"] == S_START) else 0
+        return "uy.%d" % merged, a
+    # ---- compressor side
+    def comp_fail(kindname):
+        if rc == 0 or st == "W":
+            return
+        if T is not None:
+            if T in (0, 1, 2, 9):
+                a["fail"] = S_ARGS
+            else:
+                raise Unsupported("stage " + st)
+        elif E and E["side"] == "c":
+            if E["gs"] == 100:
+                if E["code"] == "BUFSZ" and kindname != "ey":
+                    a["fail"] = S_MEMDEST
+                else:
+                    a["fail"] = S_CSTART
+                    flags["imprecise"] = True
+            elif E["gs"] in (101, 102):
+                a["fail"] = S_CSCAN
+            elif E["gs"] == 103:
+                a["fail"] = S_CFINISH
+            else:
+                raise Unsupported("stage " + st)
+        else:
+            raise Unsupported("stage " + st)
+
+    if post["c"] is not None:
+        a["ri_obs"] = post["c"][5]
+
+    def bufargs(mode, initial):
+        a["bufmode"] = {"n": 0, "s": 1, "b": 1, "r": 2}[mode]
+        n = int(res.get("n", "0"))
+        if mode == "r":
+            flags["dest_imprecise"] = True
+        a["grow"] = 1 if (rc == 0 and mode in ("n", "s") and n > initial[mode]) else 0
+        if rc != 0 and mode in ("n", "s"):
+            flags["dest_imprecise"] = True
+
+    if op == "c":
+        bits = int(toks[1])
+        bits = 8 if bits <= 8 else 12 if bits <= 12 else 16
+        lo = {8: 2, 12: 9, 16: 13}[bits]
+        a.update({"w": int(toks[2]), "h": int(toks[3]), "img": 7000 + int(toks[4]), "pf": int(toks[5]),
+                  "prec_in_range": 1 if lo <= pq["precision"] <= bits else 0})
+        bufargs(toks[6], {"n": 4096, "s": 100})
+        comp_fail("c")
+        return "c.%d" % bits, a
+    if op == "cy":
+        a.update({"w": int(toks[1]), "h": int(toks[2]), "img": 8000 + int(toks[3]), "pf": 0})
+        bufargs(toks[4], {"n": 4096, "s": 100})
+        comp_fail("cy")
+        return "cy", a
+    if op == "ey":
+        a.update({"w": int(toks[1]), "h": int(toks[2]), "img": 9000 + int(toks[3]), "pf": int(toks[4])})
+        comp_fail("ey")
+        if T == 8:
+            a["fail"] = 0
+        return "ey", a
+    if op == "t":
+        if len(toks) > 5:
+            raise Unsupported("two transforms")
+        i, kind, selfc = dec_facts(toks[1])
+        if i in LIB and LIB[i]:
+            a.update({"jw": LIB[i][0], "jh": LIB[i][1], "jprec": LIB[i][4]})     # tj3Transform does not update the parameters
+        opts = int(toks[3])
+        a.update({"nooutput": 1 if opts & 16 else 0, "copynone": 1 if opts & 64 else 0, "x_optimize": 1 if opts & 256 else 0,
+                  "x_progressive": 1 if opts & 32 else 0, "x_arithmetic": 1 if opts & 128 else 0})
+        bufargs(toks[4], {"n": 4096, "s": 100})
+        if rc != 0 and st != "W":
+            if E and E["side"] == "c":
+                if E["gs"] == 100:
+                    a["fail"] = S_MEMDEST if E["code"] == "BUFSZ" else S_WRCOEF
+                    flags["imprecise"] = True
+                else:
+                    a["fail"] = S_CFINISH
+            elif T is not None and T in (12, 13, 14, 15):
+                a["fail"] = S_XTHROW if T == 13 else S_CROP
+            elif T == 6:
+                a["fail"] = S_CROP
+            else:
+                dec_fail("t")
+        return "t.%d" % selfc, a
+    raise Unsupported(op)
+
+
+def model_lines(ctx, drv, hists, ref_lines):
+    """-> list (per history) of None | dict(line=model output, nprobe, flags)"""
+    if not drv:
+        return None
+    reqs, meta = [], []
+    for (h, stream), out in zip(hists, ref_lines):
+        meta.append(None)
+        if stream == "raw" or not out.startswith("R "):
+            continue
+        res = parse_result(out)
+        if res["crash"] and len(res["ops"]) < len(h.split(";")) - 2:
+            continue
+        ops = [o.strip().split() for o in h.split(";")]
+        inst = ops[0][1]
+        calls = ops[1:]
+        nres = len(res["ops"])
+        try:
+            states = [parse_state(res["init"])] + [parse_state(o["S"]) for o in res["ops"]]
+            flags = {"imprecise": False, "dest_imprecise": False, "imprecise_from": None}
+            mcalls = []
+            for i, toks in enumerate(calls[:nres]):
+                was = flags["imprecise"]
+                k, a = to_model_call(i, toks, res["ops"][i], states[i], states[i + 1], flags)
+                if flags["imprecise"] and not was:
+                    flags["imprecise_from"] = i
+                mcalls.append(k + " " + " ".join("%s=%d" % kv for kv in sorted(a.items())))
+            if nres < len(calls):
+                # the probe crashed on the implementation: give the model the call with the facts of a clean run
+                continue_ok = False
+                toks = calls[-1]
+                if toks[0] == "d" and res["crash"]:
+                    pq = dict(zip(PARAM_NAMES, states[-1]["p"]))
+                    i_, kind_ = jref_info(toks[2])
+                    if i_ in LIB and LIB[i_]:
+                        w_, h_, ss_, ll_, prec_, prog_, nc_ = LIB[i_]
+                        crop = 1 if (pq["cx"] or pq["cy"] or pq["cw"] or pq["ch"]) else 0
+                        merged = 1 if (pq["fastUpsample"] and ss_ in (S420, S422) and int(toks[3]) not in (6, 11)) else 0
+                        mcalls.append("d.8.1%d%d callid=%d img=%d jw=%d jh=%d jprec=8 ncomp=3 pf=%s skip_tail=1 subsamp=%d colorspace=1 o_xDensity=1 o_yDensity=1"
+                                      % (crop, merged, len(calls), i_, w_, h_, toks[3], ss_))
+                        continue_ok = True
+                if not continue_ok:
+                    continue
+            nprobe = 1
+            if calls[-1][0] in ("gi", "tb") and len(calls) >= 2 and calls[-2][0] == "h":
+                nprobe = 2
+            ic = 1 if inst in "ct" else 0
+            idd = 1 if inst in "dt" else 0
+            reqs.append("T %d %d %d | " % (ic, idd, nprobe) + " | ".join(mcalls))
+            meta[-1] = {"req": len(reqs) - 1, "flags": flags, "nprobe": nprobe, "ncalls": len(mcalls)}
+        except Unsupported as e:
+            ctx.count("model-skipped:" + str(e).split(":")[0].split()[0], 0)
+            ctx.cov.setdefault("model_skipped", 0)
+            ctx.cov["model_skipped"] += 1
+        except (KeyError, IndexError, ValueError) as e:
+            ctx.cov.setdefault("model_skipped", 0)
+            ctx.cov["model_skipped"] += 1
+    rc, out, err = sh2([drv], input=("\n".join(reqs) + "\n").encode(), timeout=1800)
+    lines = out.decode().split("\n")
+    if rc != 0 or len(lines) < len(reqs):
+        ctx.broken_tie("model-driver", "extracted model failed: rc=%d %s" % (rc, err[-200:]))
+        return None
+    for m in meta:
+        if m is not None:
+            m["line"] = lines[m["req"]]
+            m["reqline"] = reqs[m["req"]]
+    return meta
+
+
+def check_model(ctx, h, stream, res, m):
+    """compare the abstract states of the model with those read from the real structs; compare the verdicts"""
+    if m is None or res is None:
+        return
+    line = m["line"]
+    if line.startswith("X "):
+        ctx.broken_tie("model-driver", "model rejected a request: %s || %s" % (line[:200], m["reqline"][:300]))
+        return
+    parts = [p.strip() for p in line.split(" | ")]
+    mstates = [parse_state(p[2:]) for p in parts if p.startswith("S=")]
+    tail = dict(kv.split("=", 1) for kv in parts[-1].split())
+    istates = [parse_state(res["init"])] + [parse_state(o["S"]) for o in res["ops"]]
+    flags = m["flags"]
+    st = ctx.cov.setdefault("model_state_comparisons", {"calls": 0, "full": 0, "mismatch": 0})
+    for i in range(min(len(mstates), len(istates))):
+        ms, im = mstates[i], istates[i]
+        precise = not (flags["imprecise"] and flags["imprecise_from"] is not None and i > flags["imprecise_from"])
+        ok_op = i == 0 or res["ops"][i - 1]["st"] in ("OK", "W") or res["ops"][i - 1]["st"].startswith("T") or \
+            res["ops"][i - 1]["st"].startswith("Ed201")
+        diffs = []
+        for side in ("c", "d"):
+            if ms[side] is None or im[side] is None:
+                continue
+            if ms[side][0] != im[side][0]:
+                diffs.append("%s.global_state model=%d impl=%d" % (side, ms[side][0], im[side][0]))
+            if not (precise and ok_op):
+                continue
+            if side == "c":
+                names = ["gs", "scan_info", "lossless", "arith", "opt", "ri", "rir", "raw", "ptrmask"] + ([] if flags["dest_imprecise"] else ["newbuffer"])
+                idxs = list(range(9)) + ([] if flags["dest_imprecise"] else [9])
+            else:
+                names = ["gs", "saw_SOI", "saw_SOF", "unread_marker", "lossless", "arith", "progressive", "ptrmask", "progress", "tempICC", "merged"]
+                idxs = [0, 1, 2, 4, 5, 6, 7, 8, 9, 10]
+                names = [names[j] for j in idxs]
+            for nm, j in zip(names, idxs):
+                if ms[side][j] != im[side][j]:
+                    diffs.append("%s.%s model=%d impl=%d" % (side, nm, ms[side][j], im[side][j]))
+            st["full"] += 1
+        if ms["p"] != im["p"]:
+            bad = [(PARAM_NAMES[j], ms["p"][j], im["p"][j]) for j in range(min(len(ms["p"]), len(im["p"]))) if ms["p"][j] != im["p"][j]]
+            diffs.append("params " + str(bad[:4]))
+        st["calls"] += 1
+        if diffs:
+            st["mismatch"] += 1
+            if st["mismatch"] <= 3:
+                ctx.log("model/impl state mismatch after call %d of: %s\n   %s\n   model req: %s" % (i, h, "; ".join(diffs[:6]), m["reqline"][:600]))
+            ctx.broken_tie("correspondence:state", "after call %d of [%s]: %s" % (i, h[:300], "; ".join(diffs[:4])))
+            break
+    # verdicts
+    pred = tail.get("pred", "?")
+    impl_bad = bool(res["crash"]) or res["verdict"] == "DIFF"
+    vs = ctx.cov.setdefault("model_verdicts", {"same/same": 0, "differ/differ": 0, "model-differ/impl-same": 0, "model-same/impl-differ": 0})
+    if impl_bad and pred == "same":
+        vs["model-same/impl-differ"] += 1
+        ctx.broken_tie("correspondence:verdict", "the implementation's probe depends on the history but the model predicts independence: " + h[:300])
+    elif impl_bad:
+        vs["differ/differ"] += 1
+    elif pred == "same":
+        vs["same/same"] += 1
+    else:
+        vs["model-differ/impl-same"] += 1
+    if tail.get("df") == "1":
+        ctx.broken_tie("correspondence:dest", "the destination model reports a double free for: " + h[:300])
+    if tail.get("okh") == "1" and tail.get("okp") == "1" and pred != "same":
+        ctx.broken_tie("model-theorem", "analysis accepts the calls but the model's probe differs (contradicts the proved theorem): " + h[:200])
+    ctx.cov["traces_validated_against_impl"] += 1
